@@ -1,7 +1,7 @@
 """reference transcriptions (confirmed by reading on the pinned tree) for C10.b: how compound conditions evaluate and report their members"""
 REFS = {
     'mystic.termination:When.__call__':
-        "def __call__(self, solver, info=False):\n    if info == 'not':\n        return tuple(set([f for f in self if f not in self(solver, 'self')]))\n    stop = {}\n    for f in self:\n        stop.update({f: f(solver, info)})\n    _all = all(stop.values())\n    if not info:\n        return _all\n    if info == 'self':\n        return tuple(set(stop.keys())) if _all else ()\n    return '; '.join(set('; '.join(stop.values()).split('; '))) if _all else ''\n",
+        "def __call__(self, solver, info=False):\n    if info == 'not':\n        met = self(solver, 'self')\n        return tuple((f for f in self if not any((f is g for g in met))))\n    stop = [(f, f(solver, info)) for f in self]\n    _all = all((met for f, met in stop))\n    if not info:\n        return _all\n    if info == 'self':\n        return tuple((f for f, met in stop)) if _all else ()\n    return '; '.join(set('; '.join((met for f, met in stop)).split('; '))) if _all else ''\n",
     'mystic.termination:Or.__call__':
-        "def __call__(self, solver, info=False):\n    if info == 'not':\n        return tuple(set([f for f in self if f not in self(solver, 'self')]))\n    stop = {}\n    for f in self:\n        stop.update({f: f(solver, info)})\n    _any = any(stop.values())\n    if not info:\n        return _any\n    for cond, met in tuple(stop.items()):\n        if not met:\n            stop.pop(cond)\n    if info == 'self':\n        return tuple(set(stop.keys()))\n    return '; '.join(set('; '.join(stop.values()).split('; ')))\n",
+        "def __call__(self, solver, info=False):\n    if info == 'not':\n        met = self(solver, 'self')\n        return tuple((f for f in self if not any((f is g for g in met))))\n    stop = [(f, f(solver, info)) for f in self]\n    _any = any((met for f, met in stop))\n    if not info:\n        return _any\n    stop = [(f, met) for f, met in stop if met]\n    if info == 'self':\n        return tuple((f for f, met in stop))\n    return '; '.join(set('; '.join((met for f, met in stop)).split('; ')))\n",
 }
